@@ -431,3 +431,108 @@ Proof.
     + intros [[Hx|Hx] Hno]; [assumption | contradiction].
     + intro Hx. split; [left; assumption|]. intro Hn. eapply Hde; [exact Hx | exact Hn].
 Qed.
+
+Section Insert.
+  Variable hf : nat -> nat.
+
+  (* linking a freshly allocated node into the table *)
+  Lemma safe_insert_new : forall strict h s0 s n,
+    HInv h s0 -> FInv hf h -> (0 < halloc h)%nat ->
+    nhash n = hf (nkey n) -> (forall e, In e (all_nodes h) -> nkey e <> nkey n) ->
+    wf s -> NoDup (nblocks n) -> (forall x, In x (nblocks n) -> ~ In x (ids s0)) ->
+    (forall x, In x (ids s) <-> In x (nblocks n) \/ In x (ids s0)) ->
+    safe (table_insert HFixed strict h n) s (fun h' s' =>
+      s' = s /\ HInv h' s /\ FInv hf h' /\ Permutation (all_nodes h') (n :: all_nodes h) /\
+      halloc h' = halloc h /\ hblk h' = hblk h /\ hcount h' = hcount h).
+  Proof.
+    intros strict h s0 s n HI [HG [Hd Hc]] Hpos Hh Hnew Hw Hnb Hfresh Hids; unfold table_insert.
+    pose proof HI as [Hw0 [Hnd0 [Hiff0 Hv0]]].
+    assert (HT : TInv hf h [n] s 0 0).
+    { split; [|split; [|split]].
+      - unfold HInvP, hownedP in *. simpl in *. unfold nodes_blocks in *. simpl.
+        split; [assumption|]. split; [|split; [|assumption]].
+        + destruct (NoDup_app_inv _ _ Hnd0) as [Hv [Hb Hdv]].
+          apply NoDup_app_intro; [assumption | | ].
+          * apply NoDup_app_intro; [assumption | assumption |].
+            intros x Hx Hin. eapply Hfresh; eauto. apply Hiff0. apply in_or_app; right; assumption.
+          * intros x Hx Hin. apply in_app_or in Hin. destruct Hin as [Hin|Hin]; [|eapply Hdv; eauto].
+            eapply Hfresh; eauto. apply Hiff0. apply in_or_app; left; assumption.
+        + intro x; rewrite Hids, Hiff0, !in_app_iff. tauto.
+      - exact HG.
+      - unfold distinct in *. simpl. constructor; [|assumption].
+        intro Hin. apply in_map_iff in Hin. destruct Hin as [e [He Hine]]. eapply Hnew; eauto.
+      - intros x [Hx|Hx]; [subst; assumption | apply Hc; assumption]. }
+    assert (Hi : (bucket_of (nhash n) (halloc h) < halloc h)%nat) by (unfold bucket_of; apply Nat.mod_upper_bound; lia).
+    pose proof HT as [HIP _].
+    apply safe_bind. eapply safe_weaken; [eapply safe_bucket_access; [exact HIP | exact Hi]|].
+    intros u s1 Hs1; simpl in Hs1; subst s1. apply safe_ret.
+    pose proof (TInv_insert hf strict h n [] s 0 0 HT Hpos) as [HI' [HG' [Hd' Hc']]]. cbv zeta in *.
+    split; [reflexivity|]. split; [exact HI'|]. split; [split; [exact HG' | split; [exact Hd' | exact Hc']]|].
+    split; [apply set_bucket_insert_perm; exact Hi|].
+    unfold halloc, set_bucket; simpl. rewrite length_upd'. auto.
+  Qed.
+End Insert.
+
+(* ---------------------------------------------------------------- the vnacal_new parameter hash *)
+Definition idf (k : nat) : nat := k.
+
+Definition PHInv (h : htab) (s : astate) : Prop := HInv h s /\ FInv idf h /\ (0 < halloc h)%nat.
+
+Lemma HInv_count : forall h s c, HInv h s -> HInv (mkH (hblk h) c (hbuckets h)) s.
+Proof. intros h s c H; exact H. Qed.
+
+Lemma FInv_count : forall hf h c, FInv hf h -> FInv hf (mkH (hblk h) c (hbuckets h)).
+Proof. intros hf h c H; exact H. Qed.
+
+Lemma ph_new_alloc_gt : forall old, (old < ph_new_alloc old)%nat.
+Proof. intro old; unfold ph_new_alloc, INITIAL_HASH_SIZE. lia. Qed.
+
+Lemma perm_keys : forall (a b : list node), Permutation a b -> forall x, In x (map nkey a) <-> In x (map nkey b).
+Proof.
+  intros a b Hp x; split; intro H.
+  - eapply Permutation_in; [apply Permutation_map; exact Hp | exact H].
+  - eapply Permutation_in; [apply Permutation_map; apply Permutation_sym; exact Hp | exact H].
+Qed.
+
+Lemma safe_ph_get : forall h s p, PHInv h s ->
+  safe (ph_get HFixed h p) s (fun r s' =>
+    PHInv (fst r) s' /\
+    match snd r with
+    | Done => 0 <= p /\ forall x, In x (all_keys (fst r)) <-> x = Z.to_nat p \/ In x (all_keys h)
+    | _ => forall x, In x (all_keys (fst r)) <-> In x (all_keys h)
+    end).
+Proof.
+  intros h s p [HI [HF Hpos]]; unfold ph_get.
+  destruct (Z.ltb_spec p 0); [apply safe_ret; cbn [fst snd]; split; [split; auto | tauto]|].
+  set (k := Z.to_nat p).
+  apply safe_bind. eapply safe_weaken; [apply (safe_table_lookup idf h s k HI HF Hpos)|].
+  intros f s0 [Hs0 Hf]; subst s0. destruct f as [n|].
+  - apply safe_ret; cbn [fst snd]. split; [split; auto|]. split; [assumption|].
+    destruct Hf as [Hin Hk]. intro x; split; [auto | intros [Hx|Hx]; auto]. subst x. unfold all_keys. rewrite <- Hk. apply in_map; assumption.
+  - pose proof HI as [Hw _].
+    apply safe_bind. eapply safe_weaken; [apply safe_malloc; assumption|].
+    intros [b|] s1 [Hw1 H1].
+    + destruct H1 as [Hb [Hnb [Hids1 _]]].
+      apply safe_bind. unfold ph_insert.
+      apply safe_bind. eapply safe_weaken; [apply (safe_insert_new idf true h s s1 (mkN k k [b])); auto|].
+      * simpl. repeat constructor; simpl; tauto.
+      * simpl. intros x [Hx|[]]; subst; assumption.
+      * intro x; rewrite Hids1; simpl; tauto.
+      * intros h1 s2 [Hs2 [HI1 [HF1 [Hp1 [Ha1 [Hb1 Hc1]]]]]]. subst s2.
+        set (h2 := mkH (hblk h1) (S (hcount h1)) (hbuckets h1)).
+        assert (HI2 : HInv h2 s1) by exact HI1. assert (HF2 : FInv idf h2) by exact HF1.
+        assert (Hk2 : forall x, In x (all_keys h2) <-> x = k \/ In x (all_keys h)).
+        { intro x. unfold all_keys. change (all_nodes h2) with (all_nodes h1). rewrite (perm_keys _ _ Hp1). simpl. intuition. }
+        destruct (halloc h2 <=? hcount h2)%nat.
+        -- apply safe_bind. eapply safe_weaken; [apply (safe_expand idf true h2 s1 _ HI2 HF2 (ph_new_alloc_gt _))|].
+           intros [ok h3] s3 [HI3 [HF3 [Hc3 [Hp3 [Hok Hfail]]]]]; cbn [fst snd] in *.
+           apply safe_ret. apply safe_ret; cbn [fst snd].
+           split; [split; [exact HI3 | split; [exact HF3|]]|].
+           ++ destruct ok; [rewrite (Hok eq_refl); pose proof (ph_new_alloc_gt (halloc h2)); lia | rewrite (Hfail eq_refl); unfold halloc, h2; simpl; fold (halloc h1); lia].
+           ++ split; [assumption|]. intro x. unfold all_keys. rewrite (perm_keys _ _ Hp3). apply Hk2.
+        -- apply safe_ret. apply safe_ret; cbn [fst snd].
+           split; [split; [exact HI2 | split; [exact HF2 | unfold halloc, h2; simpl; fold (halloc h1); lia]]|].
+           split; [assumption | exact Hk2].
+    + destruct H1 as [Hids1 _]. apply safe_ret; cbn [fst snd].
+      split; [split; [eapply HInvP_ids_eq; eauto; intro x; rewrite Hids1; tauto | auto] | tauto].
+Qed.
